@@ -128,6 +128,63 @@ func main() {
 		}
 		return true
 	})
+	// wrong-variable slips: a use of one parameter replaced by another parameter of the same type
+	for _, d := range f.Decls {
+		fd, ok := d.(*ast.FuncDecl)
+		if !ok || fd.Body == nil || fd.Type.Params == nil {
+			continue
+		}
+		byType := map[string][]string{}
+		for _, fl := range fd.Type.Params.List {
+			ts := nodeStr(fset, fl.Type)
+			for _, n := range fl.Names {
+				if n.Name != "_" {
+					byType[ts] = append(byType[ts], n.Name)
+				}
+			}
+		}
+		other := map[string]string{}
+		for _, names := range byType {
+			if len(names) >= 2 {
+				for i, n := range names {
+					other[n] = names[(i+1)%len(names)]
+				}
+			}
+		}
+		if len(other) == 0 {
+			continue
+		}
+		lhs := map[*ast.Ident]bool{}
+		ast.Inspect(fd.Body, func(n ast.Node) bool {
+			if as, ok := n.(*ast.AssignStmt); ok {
+				for _, l := range as.Lhs {
+					if id, ok := l.(*ast.Ident); ok {
+						lhs[id] = true
+					}
+				}
+			}
+			if kv, ok := n.(*ast.KeyValueExpr); ok {
+				if id, ok := kv.Key.(*ast.Ident); ok {
+					lhs[id] = true
+				}
+			}
+			if se, ok := n.(*ast.SelectorExpr); ok {
+				lhs[se.Sel] = true
+			}
+			return true
+		})
+		ast.Inspect(fd.Body, func(n ast.Node) bool {
+			id, ok := n.(*ast.Ident)
+			if !ok || lhs[id] {
+				return true
+			}
+			if o, ok := other[id.Name]; ok && id.Obj != nil && id.Obj.Kind == ast.Var {
+				old := id.Name
+				add(id.Pos(), "wrong-param", fmt.Sprintf("%s: use of %s -> %s", fd.Name.Name, old, o), func() { id.Name = o })
+			}
+			return true
+		})
+	}
 	if *list {
 		for i, m := range muts {
 			fmt.Printf("%d\t%d\t%s\t%s\n", i, m.line, m.op, m.desc)
